@@ -11,6 +11,10 @@ from . import val as V
 
 PyVal = z3.DeclareSort("PyVal")
 _truthy = z3.Function("truthy", PyVal, z3.BoolSort())
+_pylen = z3.Function("pylen", PyVal, z3.IntSort())
+_pylt = z3.Function("pylt", PyVal, PyVal, z3.BoolSort())
+_pyisnan = z3.Function("pyisnan", PyVal, z3.BoolSort())
+_pyint = z3.Function("pyint", PyVal, z3.IntSort())
 _consts = {}      # python value -> z3 const
 
 
@@ -52,13 +56,30 @@ class PV:
             return self.t == o
         if op == "!=":
             return self.t != o
-        raise Unsupported("ordering comparison of an untyped option value")
+        # ordering of untyped values: an uninterpreted relation (TypeError for unordered types not modelled)
+        lt = _pylt(self.t, o) if op in ("<", ">=") else _pylt(o, self.t)
+        return lt if op in ("<", ">") else z3.Not(lt)
 
     def is_none(self):
         return self.t == pv_const(None)
 
     def truthy(self):
         return _truthy(self.t)
+
+    def isnan(self):
+        return _pyisnan(self.t)
+
+    def as_int(self):
+        return _pyint(self.t)
+
+    def item(self):
+        """element of an untyped sequence: a fresh untyped value"""
+        return PV(z3.FreshConst(PyVal, "item"))
+
+    def length(self):
+        """len() of an untyped value: an uninterpreted non-negative integer (raising TypeError for
+        objects without a length is not modelled: the callers document sequences here)"""
+        return _pylen(self.t)
 
     def __repr__(self):
         return "PV(%s)" % self.t
